@@ -64,7 +64,7 @@ def cases(tier, seed):
                 for w in ws:
                     for floor in ("default", "scalar", "feature", "matrix"):
                         k += 1
-                        out.append(dict(C=C, D=D, i=i, j=j, w=w, floor=floor, dask=(k % 4 == 0), seed=seed, tier=tier))
+                        out.append(dict(C=C, D=D, i=i, j=j, w=w, floor=floor, dask=(k % 5 == 0), seed=seed, tier=tier))
                         if floor != "default" and (k % 3 == 0 or tier == "thorough"):
                             # same visible machine reached by another order of public calls: variances first, floors raised afterwards
                             out.append(dict(C=C, D=D, i=i, j=j, w=w, floor=floor, order="var_then_floor", dask=False, seed=seed, tier=tier))
